@@ -22,8 +22,11 @@ impl WindowExecutor {
         for chunk in child {
             let chunk = chunk?;
             let mut builder = DataChunkBuilder::new(&self.types, chunk.cardinality() + 1);
+            // the arguments of the window functions (not the input columns at the same positions)
+            let args_chunk = Evaluator::new(&self.exprs).eval_list(&chunk)?;
             for i in 0..chunk.cardinality() {
-                Evaluator::new(&self.exprs).agg_list_append(&mut states, chunk.row(i).values())?;
+                Evaluator::new(&self.exprs)
+                    .agg_list_append(&mut states, args_chunk.row(i).values())?;
                 let results = Evaluator::new(&self.exprs).agg_list_get_result(&states);
                 _ = builder.push_row(results);
             }
